@@ -37,6 +37,8 @@ CONSTANTS MaxSecs,   \* sections per description
           MaxOpts,   \* options per description
           MaxMem,    \* members per graph
           MaxTop,    \* top-level entries
+          MaxDocs,   \* descriptions loaded one after the other on the same layout object
+          MaxSteps,  \* operations on the loaded layout (graph property changes, binds) per description
           Mode       \* alphabet selection: "mc" | "gen" | "gent" | "trace"
 
 VARIABLES stack,  \* open frames [h, body, id]; stack[1] = the layout itself
@@ -44,8 +46,9 @@ VARIABLES stack,  \* open frames [h, body, id]; stack[1] = the layout itself
           heap,   \* Tier 2: struct images, heap[1] = the layout
           cnt,    \* [secs, opts, rep]: items written so far, reports so far (Tier 2 count)
           den,    \* Tier 1: what the document written so far denotes (a function of stack)
+          sess,   \* the history of the layout object: earlier descriptions (their steps), operations after the current load
           obs
-vars == <<stack, text, heap, cnt, den, obs>>
+vars == <<stack, text, heap, cnt, den, sess, obs>>
 
 L  == INSTANCE Layout WITH KindSet <- {"axis"}, MaxOps <- 0, kind <- "axis", t2 <- <<>>, t1 <- <<>>,
                            nid <- 0, ops <- 0, obs <- [a |-> "none"]
@@ -371,16 +374,34 @@ CloseText(d) == CT!Cat(CT!GapText(FF, d.g), CT!C1(FF.se))
 Top == stack[Len(stack)]
 TopKind == IF Top.id > 0 THEN heap[Top.id].kind ELSE ""
 Exp1(st) == Denote(Fold(st))
+(* what loading a document must show on a layout object that has loaded ndocs documents before: exactly what   *)
+(* the document denotes; alias / font: the document's value where it gives one, the default after a reset      *)
+(* (rst), otherwise not demanded                                                                                *)
+LaySet(tree) == {LayName(tree[i].name) : i \in {j \in 1..Len(tree) : tree[j].e = "opt"}} \ {""}
+LoadExpOf(dn, st, empty, ndocs, rst) ==
+  IF dn.ret # "ok" THEN dn
+  ELSE LET d1 == IF empty THEN [dn EXCEPT !.rep = -1] ELSE dn IN     \* an empty document: reports not demanded
+       IF ndocs = 0 THEN d1
+       ELSE LET keys == IF rst THEN {"alias", "font"} ELSE LaySet(Fold(st)) IN
+            [d1 EXCEPT !.lay = [k \in keys |-> dn.lay[k]]]
+LoadStepOf(dn, txt, st, empty, ndocs, rst) ==
+  [a |-> IF ndocs = 0 THEN "load" ELSE "reload", arg |-> [text |-> RleOfRuns(txt)], exp |-> LoadExpOf(dn, st, empty, ndocs, rst)]
 Case(a, arg, txt, st) ==
   /\ den' = Exp1(st)
-  /\ obs' = [a |-> a, arg |-> arg @@ [text |-> RleOfRuns(txt)], exp |-> den']
+  /\ LET stp == LoadStepOf(den', txt, st, FALSE, sess.docs, sess.rst) IN
+     /\ sess' = [sess EXCEPT !.cur = stp]
+     /\ obs' = stp
+
+\* later descriptions of a history stay small in the export runs
+SecLimit == IF sess.docs > 0 /\ Mode \in {"gen", "gent"} THEN 2 ELSE MaxSecs
+OptLimit == IF sess.docs > 0 /\ Mode \in {"gen", "gent"} THEN 1 ELSE MaxOpts
 
 UnitXY(r) == \A f \in {"x", "y"} : r[f][1] = 0 /\ r[f][2] = 0 /\ r[f][3] \in 0..2
 
 (* name = value ; inside the innermost open section (or for the layout itself) *)
 AddOption(name, v, d) ==
   LET k == TopKind  vr == TextRuns(v)  q == QuoteFor(vr, d.q) IN
-  /\ cnt.opts < MaxOpts
+  /\ cnt.opts < OptLimit
   /\ CT!NameOK(CT!B(name), OptFlags) /\ CT!NameLex(FF, CT!B(name)) /\ name # <<>>
   /\ v.f \in TextForms /\ q >= 0 /\ CT!ValOK(FF, vr, q) /\ CT!GapOK(FF, d.g)
   /\ vr # <<>>                                   \* an empty value is no value: see AddReset
@@ -404,7 +425,7 @@ AddOption(name, v, d) ==
 (* name = ; inside a plain object: a node without value resets the property *)
 AddReset(name, d) ==
   LET k == TopKind IN
-  /\ cnt.opts < MaxOpts /\ Top.id > 0 /\ ~IsGroup(k)
+  /\ cnt.opts < OptLimit /\ Top.id > 0 /\ ~IsGroup(k)
   /\ CT!NameOK(CT!B(name), OptFlags) /\ CT!NameLex(FF, CT!B(name)) /\ name # <<>> /\ CT!GapOK(FF, d.g)
   /\ text' = CT!Cat(text, ResetText(name, d))
   /\ stack' = [stack EXCEPT ![Len(stack)].body = Append(@, Opt(name, NoVal))]
@@ -420,7 +441,7 @@ OpenSection(h, d) ==
       chain == Chain(stack)
       nsib == Cardinality({i \in 1..Len(Top.body) : Top.body[i].e = "sec"})
       hn == CT!B(HdrText(h, d.hs)) IN
-  /\ cnt.secs < MaxSecs /\ Top.id > 0 /\ IsGroup(TopKind)
+  /\ cnt.secs < SecLimit /\ Top.id > 0 /\ IsGroup(TopKind)
   /\ Len(stack) = 1 => Len(Top.body) < MaxTop
   /\ Len(stack) > 1 => nsib < MaxMem
   /\ Len(stack) > 1 => k # "graph"                                \* graphs inside graphs: not described
@@ -457,9 +478,9 @@ CloseSection(d) ==
 (* then read once more -- equal properties, nothing changed                                        *)
 CopyModes == {"clone", "null", "empty", "props"}
 Probe(a, mode) ==
-  /\ Len(stack) = 1 /\ cnt.secs > 0
+  /\ Len(stack) = 1 /\ cnt.secs > 0 /\ sess.docs = 0 /\ ~sess.on
   /\ mode = "props" => \A i \in 2..Len(heap) : heap[i].kind = "text" => UnitXY(heap[i].r)    \* open finding of C20
-  /\ UNCHANGED <<stack, text, heap, cnt, den>>
+  /\ UNCHANGED <<stack, text, heap, cnt, den, sess>>
   /\ obs' = [a |-> a, arg |-> IF a = "copy" THEN [mode |-> mode] ELSE [x |-> 0],
              exp |-> LET e == den IN IF e.ret = "ok" THEN [ret |-> "ok", lay |-> e.lay, items |-> e.items, graphs |-> e.graphs]
                                              ELSE [ret |-> "failed"]]
@@ -468,18 +489,87 @@ Probe(a, mode) ==
 InstName == <<113, 49>>       \* q1
 Inst ==
   LET k == IF cnt.secs % 2 = 0 THEN "axis" ELSE "world" IN
-  /\ Len(stack) = 1 /\ cnt.secs > 0 /\ den.ret = "ok"
-  /\ UNCHANGED <<stack, text, heap, cnt, den>>
+  /\ Len(stack) = 1 /\ cnt.secs > 0 /\ sess.docs = 0 /\ ~sess.on /\ den.ret = "ok"
+  /\ UNCHANGED <<stack, text, heap, cnt, den, sess>>
   /\ obs' = [a |-> "inst", arg |-> [kind |-> k, name |-> InstName],
              exp |-> [ret |-> "ok", lay |-> den.lay, graphs |-> den.graphs,
                       items |-> Append(den.items, [name |-> L!RLE(InstName), kind |-> k, p |-> AllView1(k, Def1T[k]),
                                                    items |-> <<>>, axes |-> <<>>, worlds |-> <<>>])]]
 (* the C path on the same text *)
 CLoad ==
-  /\ Len(stack) = 1 /\ cnt.secs > 0
-  /\ UNCHANGED <<stack, text, heap, cnt, den>>
+  /\ Len(stack) = 1 /\ cnt.secs > 0 /\ sess.docs = 0 /\ ~sess.on
+  /\ UNCHANGED <<stack, text, heap, cnt, den, sess>>
   /\ obs' = [a |-> "cload", arg |-> [text |-> RleOfRuns(text)],
              exp |-> [ret |-> "ok", items |-> CItems(stack[1].body, Len(stack[1].body))]]
+
+
+---------------------------------------------------------------------------
+(* histories of one layout object: load, operations on the loaded layout,  *)
+(* [reset,] load of the next description ...                               *)
+(*  - after load(B) the layout denotes exactly B, whatever it held before  *)
+(*    (alias / font: B's value where B gives one, the default after a      *)
+(*    reset; otherwise the statement is silent);                           *)
+(*  - gset: a property of a graph is set from text (Layout's Den);         *)
+(*  - gbind: the graph binds what its 'axes' / 'worlds' texts name NOW;    *)
+(*    when a name cannot be found the bind is refused and the graph stays  *)
+(*    exactly as it was (both lists), like any refused operation.          *)
+EmptyStack == << [h |-> NoHdr, body |-> <<>>, id |-> 1] >>
+NoSess == [docs |-> 0, done |-> <<>>, sum |-> <<>>, rst |-> FALSE, on |-> FALSE, items |-> <<>>, steps |-> <<>>,
+           cur |-> LoadStepOf(Exp1(EmptyStack), <<>>, EmptyStack, TRUE, 0, FALSE)]
+HeapFlags == {<<heap[i].kind, heap[i].r # Def2T[heap[i].kind]>> : i \in 2..Len(heap)}
+History == sess.done \o <<sess.cur>> \o sess.steps
+ResetStep == [a |-> "reset", arg |-> [x |-> 0], exp |-> [ret |-> "ok", lay |-> [alias |-> <<>>, font |-> <<>>]]]
+
+LiveItems == IF sess.on THEN sess.items ELSE den.items
+GraphIdx(items) == {i \in 1..Len(items) : items[i].kind = "graph"}
+LiveExp(ret, items) == [ret |-> ret, lay |-> sess.cur.exp.lay, items |-> items, graphs |-> den.graphs]
+OpsOK == den.ret = "ok" /\ Len(sess.steps) < MaxSteps /\ (Mode # "trace" => Len(stack) = 1)
+OpStep(st, items) ==
+  /\ sess' = [sess EXCEPT !.on = TRUE, !.items = items, !.steps = Append(@, st)]
+  /\ obs' = st
+  /\ UNCHANGED <<stack, text, heap, cnt, den>>
+
+GSet(gi, name, v) ==
+  LET items == LiveItems IN
+  /\ OpsOK /\ gi \in GraphIdx(items)
+  /\ v.f \in TextForms /\ TextRuns(v) # <<>> /\ Determinate("graph", name, v)
+  /\ LET i == SetResolve("graph", name)
+         r == IF i = 0 THEN L!Refused ELSE DenT(PropsT["graph"][i].pt, v)
+         new == IF r.ret = "ok" THEN [items EXCEPT ![gi].p = L!Put1("graph", @, PropsT["graph"][i].name, r.den)] ELSE items
+     IN OpStep([a |-> "gset", arg |-> [g |-> gi - 1, name |-> name, text |-> RleOfRuns(TextRuns(v))],
+                exp |-> LiveExp(IF r.ret = "ok" THEN "ok" ELSE "refused", new)], new)
+
+PMatch(sc, kind, nm) == {i \in 1..Len(sc) : sc[i].kind = kind /\ sc[i].name = L!RLE(nm)}
+PBound2(kind, str, own, top) ==        \* [list, ok] on the projected items
+  IF str = <<>>
+  THEN LET S == SelectSeq(own, LAMBDA o : o.kind = kind) IN
+       [ok |-> TRUE, list |-> [j \in 1..Len(S) |-> [name |-> S[j].name, kind |-> kind, p |-> S[j].p]]]
+  ELSE LET w == WordsOf(str)
+           hit(j) == IF PMatch(own, kind, w[j]) # {} THEN own[MinOf(PMatch(own, kind, w[j]))]
+                     ELSE IF PMatch(top, kind, w[j]) # {} THEN top[MinOf(PMatch(top, kind, w[j]))] ELSE [kind |-> ""]
+       IN [ok |-> \A j \in 1..Len(w) : hit(j).kind # "",
+           list |-> [j \in 1..Len(w) |-> IF hit(j).kind = "" THEN [name |-> L!RLE(w[j]), kind |-> "", p |-> <<>>]
+                                          ELSE [name |-> L!RLE(w[j]), kind |-> kind, p |-> hit(j).p]]]
+GBind(gi) ==
+  LET items == LiveItems IN
+  /\ OpsOK /\ gi \in GraphIdx(items)
+  /\ LET g == items[gi]
+         ax == PBound2("axis", g.p.axes, g.items, items)
+         wl == PBound2("world", g.p.worlds, g.items, items)
+         ok == ax.ok /\ wl.ok
+         new == IF ok THEN [items EXCEPT ![gi].axes = ax.list, ![gi].worlds = wl.list] ELSE items
+     IN OpStep([a |-> "gbind", arg |-> [g |-> gi - 1], exp |-> LiveExp(IF ok THEN "ok" ELSE "refused", new)], new)
+
+NextDoc(rst) ==
+  /\ sess.docs + 1 < MaxDocs
+  /\ Mode # "trace" => Len(stack) = 1 /\ cnt.secs > 0
+  /\ sess' = [docs |-> sess.docs + 1, done |-> History \o (IF rst THEN <<ResetStep>> ELSE <<>>), sum |-> Append(sess.sum, IF Mode = "gen" THEN {f[1] : f \in HeapFlags} \cap {"graph"} ELSE HeapFlags),
+              rst |-> rst, on |-> FALSE, items |-> <<>>, steps |-> <<>>,
+              cur |-> LoadStepOf(Exp1(EmptyStack), <<>>, EmptyStack, TRUE, sess.docs + 1, rst)]
+  /\ stack' = EmptyStack
+  /\ text' = <<>> /\ heap' = <<LayImg>> /\ cnt' = [secs |-> 0, opts |-> 0, rep |-> 0]
+  /\ den' = Exp1(stack')
+  /\ obs' = [a |-> "next", arg |-> [x |-> 0], exp |-> [ret |-> "ok"]]
 
 ---------------------------------------------------------------------------
 (* alphabets *)
@@ -495,7 +585,8 @@ OkName(nm) == CT!NameOK(CT!B(nm), OptFlags) /\ CT!NameLex(FF, CT!B(nm))
 (* export runs: the full alphabet (every property x every text value class x spelling) is offered for the    *)
 (* first option of the first section(s) of a description, a medium one (every property x three values) in   *)
 (* the next section; later options and sections come from the small alphabet                                *)
-Level == CASE Mode = "gen"  -> (IF cnt.opts = 0 /\ cnt.secs = 1 THEN 2
+Level == CASE sess.docs > 0 -> 0
+           [] Mode = "gen"  -> (IF cnt.opts = 0 /\ cnt.secs = 1 THEN 2
                                 ELSE IF cnt.opts = 0 /\ cnt.secs = 2 /\ (Len(stack) = 3 \/ stack[Len(stack)].h.par # <<>>) THEN 1 ELSE 0)
            [] Mode = "gent" -> (IF cnt.opts <= 1 /\ cnt.secs <= 2 THEN 2 ELSE IF cnt.opts <= 1 /\ cnt.secs = 3 THEN 1 ELSE 0)
            [] OTHER -> 0
@@ -522,7 +613,7 @@ ResetChoices(k) ==
   ELSE IF Level < 2 THEN (CASE k = "axis" -> {N_title, N_bogus} [] k = "world" -> {N_cyc} [] k = "text" -> {N_pos} [] OTHER -> {N_color})
   ELSE {x \in L!CanonNames(k) \cup {N_bogus} : OkName(x)}
 
-FullHdr == Mode \in {"gen", "gent"} /\ cnt.secs <= (IF Mode = "gent" THEN 2 ELSE 1)
+FullHdr == Mode \in {"gen", "gent"} /\ sess.docs = 0 /\ cnt.secs <= (IF Mode = "gent" THEN 2 ELSE 1)
 ItemNames == IF FullHdr THEN {NM_a, NM_b, NM_w, NM_a1} ELSE {NM_a, NM_b}
 KindWords == IF FullHdr THEN {KW_axis, KW_xaxis, KW_yaxis, KW_zaxis, KW_world, KW_graph, KW_text, KW_line, KW_legend, KW_Axis}
              ELSE IF Mode = "mc" THEN (IF MaxMem >= 2 THEN {KW_axis, KW_world, KW_graph, KW_legend} ELSE {KW_axis, KW_world, KW_graph, KW_text, KW_legend})
@@ -533,26 +624,41 @@ Headers == {Hdr(kw, nm, par) : kw \in KindWords, nm \in ItemNames, par \in ParCh
 Init ==
   /\ stack = << [h |-> NoHdr, body |-> <<>>, id |-> 1] >>
   /\ text = <<>> /\ heap = <<LayImg>> /\ cnt = [secs |-> 0, opts |-> 0, rep |-> 0]
-  /\ den = Exp1(stack)
+  /\ den = Exp1(stack) /\ sess = NoSess
   /\ obs = [a |-> "none", arg |-> [x |-> 0], exp |-> [ret |-> "ok"]]
 
 Salt(c) == Len(c[1]) + Len(c[2].c) + Len(c[2].n) + (IF c[2].n = <<>> THEN 0 ELSE c[2].n[Len(c[2].n)])
-Build ==
+Build0 ==
   \/ \E c \in OptChoices(TopKind) : AddOption(c[1], c[2], DecoPick(Salt(c)))
   \/ \E nm \in ResetChoices(TopKind) : AddReset(nm, DecoPick(Len(nm)))
   \/ \E h \in Headers : OpenSection(h, DecoPick(Len(h.kw) + Len(h.par) + h.name[Len(h.name)]))
   \/ CloseSection(DecoPick(cnt.secs + cnt.opts))
+Build == ~sess.on /\ Build0          \* a description is complete once the loaded layout has been worked on
 \* quick export: one copy mode per description (all four in the other modes)
 CopyPick == IF Mode = "gen" THEN {<<"clone", "null", "empty", "props">>[((cnt.secs + cnt.opts) % 4) + 1]} ELSE CopyModes
 Odd == (cnt.secs + cnt.opts) % 2 = 1
+NM_zz2 == <<122, 122>>
+OpSetChoices == {<<N_axes, L!Txt(NM_ba)>>, <<N_axes, L!Txt(NM_a)>>, <<N_axes, L!Txt(NM_zz2)>>, <<N_worlds, L!Txt(NM_zz2)>>,
+                 <<N_worlds, L!Txt(NM_w)>>, <<N_fg, L!Txt(W_red)>>, <<N_fg, L!Txt(W_abc)>>, <<N_bogus, L!Txt(W_abc)>>}
+\* export runs: operations start on descriptions without options (quick) and work on the first graph
+OpsHere == Len(stack) = 1 /\ (Mode = "gen" => cnt.opts = 0 /\ sess.docs = 0)
+OpSetQuick == {<<N_axes, L!Txt(NM_ba)>>, <<N_axes, L!Txt(NM_zz2)>>, <<N_worlds, L!Txt(NM_zz2)>>, <<N_worlds, L!Txt(NM_w)>>, <<N_fg, L!Txt(W_abc)>>}
+Ops == OpsHere /\ \E gi \in GraphIdx(LiveItems) :
+          /\ (Mode = "gen" => gi = MinOf(GraphIdx(LiveItems)))
+          /\ ((\E c \in (IF Mode = "gen" THEN OpSetQuick ELSE OpSetChoices) : GSet(gi, c[1], c[2])) \/ GBind(gi))
+\* quick export: a second description follows two-section descriptions, with a reset in between for every other one
+NextDocs == IF Mode = "gen" THEN ~sess.on /\ cnt.secs = 2 /\ NextDoc((cnt.opts + Cardinality(HeapFlags)) % 2 = 1)
+            ELSE \E rst \in BOOLEAN : NextDoc(rst)
 Next == Build \/ (\E m \in CopyPick : Probe("copy", m)) \/ CLoad
               \/ ((Mode # "gen" \/ Odd) /\ Probe("dump", "")) \/ ((Mode # "gen" \/ ~Odd) /\ Inst)
+              \/ Ops \/ NextDocs
 Spec == Init /\ [][Next]_vars
 
 ---------------------------------------------------------------------------
 (* invariants *)
 TypeOK ==
   /\ Len(stack) \in 1..3 /\ stack[1].id = 1 /\ heap[1].kind = "layout"
+  /\ sess.docs \in 0..(MaxDocs - 1) /\ Len(sess.steps) <= MaxSteps /\ (sess.on => den.ret = "ok")
   /\ cnt.secs \in 0..MaxSecs /\ cnt.opts \in 0..MaxOpts /\ cnt.rep \in 0..(MaxSecs + MaxOpts)
   /\ \A i \in 2..Len(heap) : heap[i].kind \in {"axis", "line", "text", "graph", "world"}
                              /\ DOMAIN heap[i].r = DOMAIN Def2T[heap[i].kind]
@@ -611,4 +717,22 @@ Reported == [][cnt'.rep > cnt.rep /\ Len(heap') = Len(heap) => heap' = heap]_var
 OpenFrame == [][Len(heap') > Len(heap) =>
                  \A i \in 1..Len(heap) : heap'[i].r = heap[i].r /\ (i # Top.id => heap'[i] = heap[i])
                                          /\ SubSeq(heap'[i].items, 1, Len(heap[i].items)) = heap[i].items]_vars
+\* a refused operation on the loaded layout leaves every item, member and binding list as it was
+RefusedFrame == [][obs'.a \in {"gset", "gbind"} /\ obs'.exp.ret = "refused" => sess'.items = LiveItems]_vars
+\* an accepted bind binds exactly the words of the texts (all own members when empty) and touches nothing else
+BindExact == [][obs'.a = "gbind" /\ obs'.exp.ret = "ok" =>
+                  LET gi == obs'.arg.g + 1  g == sess'.items[gi]  old == LiveItems IN
+                  /\ (g.p.axes # <<>> => [j \in 1..Len(g.axes) |-> g.axes[j].name] = [j \in 1..Len(WordsOf(g.p.axes)) |-> L!RLE(WordsOf(g.p.axes)[j])])
+                  /\ (g.p.worlds # <<>> => [j \in 1..Len(g.worlds) |-> g.worlds[j].name] = [j \in 1..Len(WordsOf(g.p.worlds)) |-> L!RLE(WordsOf(g.p.worlds)[j])])
+                  /\ \A j \in 1..Len(g.axes) : g.axes[j].kind = "axis"
+                  /\ \A j \in 1..Len(g.worlds) : g.worlds[j].kind = "world"
+                  /\ g.p = old[gi].p /\ g.items = old[gi].items
+                  /\ \A i \in 1..Len(old) : i # gi => sess'.items[i] = old[i]]_vars
+\* setting a graph property leaves the binding lists and every other item alone
+GSetFrame == [][obs'.a = "gset" =>
+                  LET gi == obs'.arg.g + 1  old == LiveItems IN
+                  /\ sess'.items[gi].axes = old[gi].axes /\ sess'.items[gi].worlds = old[gi].worlds /\ sess'.items[gi].items = old[gi].items
+                  /\ \A i \in 1..Len(old) : i # gi => sess'.items[i] = old[i]]_vars
+\* a new description starts from nothing: what it denotes does not depend on the history
+FreshDoc == [][obs'.a = "next" => den' = Exp1(<< [h |-> NoHdr, body |-> <<>>, id |-> 1] >>) /\ heap' = <<LayImg>>]_vars
 =============================================================================
